@@ -157,29 +157,29 @@ func valueFor(id, n int) string {
 }
 
 type sessionResult struct {
-	OpenErr   error
-	CloseErr  error
-	Closed    bool
-	SchedErr  error
-	Run       simrt.RunResult
-	Stopped   []string
-	Handles   []string // open after Close
-	Mappings  []string
-	MaxHandles, MaxMappings int
-	TasksLeft []string
+	OpenErr                                    error
+	CloseErr                                   error
+	Closed                                     bool
+	SchedErr                                   error
+	Run                                        simrt.RunResult
+	Stopped                                    []string
+	Handles                                    []string // open after Close
+	Mappings                                   []string
+	MaxHandles, MaxMappings                    int
+	TasksLeft                                  []string
 	OpenSeq, OpenRetSeq, CloseSeq, CloseRetSeq int
-	BubblePanic string
-	ProcFDs, ProcMaps []string
+	BubblePanic                                string
+	ProcFDs, ProcMaps                          []string
 }
 
 type dbRunner struct {
-	w       *simrt.World
-	dir     string
-	hist    []*opRec
-	nextID  int
-	keys    []string
-	t       *testing.T
-	onOp    func(db *simpledb.DB, op *opRec) // optional hook after each op returned (runs inside the client task)
+	w           *simrt.World
+	dir         string
+	hist        []*opRec
+	nextID      int
+	keys        []string
+	t           *testing.T
+	onOp        func(db *simpledb.DB, op *opRec)                     // optional hook after each op returned (runs inside the client task)
 	betweenHook func(db *simpledb.DB, sess int, client int, idx int) // optional: before each op
 }
 
@@ -331,5 +331,35 @@ func procRefs(dir string) (fds, maps []string) {
 			}
 		}
 	}
+	return
+}
+
+// runInBubble runs body as the single client task of a scheduled run (background tasks of the code under test
+// are interleaved by the tape). It returns the scheduler result and error.
+func runInBubble(t *testing.T, w *simrt.World, knobs schedKnobs, body func()) (res simrt.RunResult, err error, stopped []string) {
+	defer func() {
+		if p := recover(); p != nil {
+			msg := fmt.Sprint(p)
+			if strings.Contains(msg, "deadlock") || strings.Contains(msg, "blocked goroutines") {
+				return
+			}
+			panic(p)
+		}
+	}()
+	synctest.Test(t, func(t *testing.T) {
+		w.EnableScheduler(simrt.SchedConfig{
+			Weights:       [4]int{max(knobs.WClient, 1), max(knobs.WFlusher, 1), max(knobs.WCompactor, 1), 1},
+			AdvanceWeight: knobs.Advance,
+			Interval:      time.Second,
+			MaxAdvances:   50,
+			MaxSteps:      400000,
+		})
+		w.GoClient("main", body)
+		res, err = w.RunScheduler()
+		stopped = w.StoppedMessages()
+		if err != nil || len(stopped) > 0 || len(res.WaitFor) > 0 {
+			w.KillTasks()
+		}
+	})
 	return
 }
